@@ -33,13 +33,16 @@ def examples(tier):
 
 
 def cell(dest, kind, overwrite, sel, name="target", tkind="home", content="trashed-content",
-         other="free"):
+         other="free", pslash=False):
     return {"dest": dest, "kind": kind, "overwrite": overwrite, "sel": sel, "name": name,
-            "tkind": tkind, "content": content, "other": other}
+            "tkind": tkind, "content": content, "other": other, "pslash": pslash}
 
 
 def grid(tier):
-    return [cell(d, k, o, s) for d in DESTS for k in KINDS for o in (False, True) for s in SELS]
+    g = [cell(d, k, o, s) for d in DESTS for k in KINDS for o in (False, True) for s in SELS]
+    # the recorded Path written with a trailing slash (other implementations do that for directories)
+    g += [cell(d, k, False, "single", pslash=True) for d in DESTS for k in KINDS]
+    return g
 
 
 @st.composite
@@ -48,7 +51,7 @@ def strategy_(draw, tier):
                 draw(st.sampled_from(SELS)), draw(gen.names(long_ok=False)),
                 draw(st.sampled_from(["home", "top_alt", "top_sticky"])),
                 draw(st.text(alphabet="abc\n", min_size=1, max_size=8)),
-                draw(gen.names(simple=True)))
+                draw(gen.names(simple=True)), draw(st.integers(0, 5)) == 0)
 
 
 def strategy(tier):
@@ -69,7 +72,14 @@ def run_case(case):
     tw.nodes.append({"p": wd + "/zz-linktarget-file", "t": "f", "c": "link target"})
     tw.nodes.append({"p": wd + "/zz-linktarget-dir/keep", "t": "f", "c": "keep me"})
     dest = wd + "/" + case["name"]
+    pv = None
+    if case.get("pslash") and (case["sel"] != "single" or case["overwrite"]):
+        case = dict(case, pslash=False)   # the slash form is only judged for plain single restores
+    if case.get("pslash"):
+        from ..sandbox import fsenc
+        pv = fsenc(dest if base is None else dest[len(base.rstrip("/")) + 1:]) + b"/"
     e = tw.add(tdir, base, dest, "2020-01-02T00:00:00", kind=case["kind"], content=case["content"],
+               path_value=pv,
                link_to={"link_file": "zz-linktarget-file", "link_dangling": "gone"}.get(case["kind"], "x"))
     d = case["dest"]
     if d == "file":
@@ -108,7 +118,8 @@ def run_case(case):
     args = (["--overwrite"] if case["overwrite"] else [])
     res = runner.run(spec, "trash-restore", args + (["/"] if spec["cwd"] == "/" else []), stdin=reply)
     after = sandbox.snapshot()
-    tags = dict(dest=d, entry=case["kind"], overwrite=case["overwrite"], sel=case["sel"])
+    tags = dict(dest=d, entry=case["kind"], overwrite=case["overwrite"], sel=case["sel"],
+                pslash=bool(case.get("pslash")))
     sigma = subtree(before, e["payload"])
     in_trash = (e["info"] in after and subtree(after, e["payload"]) == sigma and
                 sandbox.sig(after[e["info"]]) == sandbox.sig(before[e["info"]]))
@@ -147,6 +158,11 @@ def run_case(case):
             # (with a directory restored first, --overwrite of the second version goes onto a
             # directory, which the statement leaves open)
             out.fail("entry_lost", "--overwrite with two versions: neither is at the destination", **tags)
+    elif d == "absent" and case.get("pslash"):
+        # ('x/' denotes a directory: the entry may legitimately land inside a created x/)
+        if not (in_trash or at_dest or any(subtree(after, p) == sigma for p in after if p.startswith(wd))):
+            out.fail("entry_lost", "Path with trailing slash, free destination: entry neither in "
+                     "the trash nor restored", **tags)
     elif d == "absent":
         if not (at_dest and e["info"] not in after and e["payload"] not in after and res.code == 0):
             out.fail("control_not_restored", "free destination: entry not restored exactly "
@@ -182,6 +198,6 @@ def run_case(case):
                      "nor restored (or both)", **tags)
     if d != "absent" or twin is not None:
         out.key = [d, case["kind"], case["overwrite"], case["sel"], case["tkind"],
-                   gen.name_class(case["name"])]
+                   gen.name_class(case["name"]), bool(case.get("pslash"))]
         out.sample = dict(case, exit=res.code)
     return out
